@@ -1003,6 +1003,19 @@ func (dsc *dataStoreCommand) persist(keyName string) (output respValue) {
 	return
 }
 
+// the number of keys of the database, not counting those whose time to live has run out
+func (dsc *dataStoreCommand) liveKeyCount() (count int) {
+	dsc.lock()
+	defer dsc.unlock()
+
+	for i := dsc.ds.data.createIterator(); i.next(); {
+		if !i.value.(*storeKey).isExpiredUnlocked() {
+			count++
+		}
+	}
+	return
+}
+
 func (dsc *dataStoreCommand) randomKey() (output respValue) {
 	dsc.lock()
 	defer dsc.unlock()
